@@ -880,6 +880,8 @@ def eval_tov1(ev, d, obj, tpl, flds, modelled):
                or attr in m["M1"].SCOREPROP_LINE[m["U"].Version(1, 0, 0)] or attr in m["M1"].SCOREPROP_ATTRIBUTE_EQUIVALENCES)
         if not has:
             return
+        if attr == "tempoIndication" and len(obj.Value) == 0:
+            return  # a tempo indication is a non-empty text: the empty pre-1.0 list has no 1.0.0 counterpart
     if e2 is not None:
         ev.oracle.append("to_v1: %s %s: converting %r raised %s: %s" % (kind, ver, obj.matchline, type(e2).__name__, e2))
         return
@@ -914,7 +916,7 @@ def eval_tov1(ev, d, obj, tpl, flds, modelled):
         if (new.Time, new.Value) != (obj.Time, obj.Value):
             bad.append("Time/Value")
     if kind in ("meta", "info") and nk == "scoreprop":
-        if not values_equal(new.Value, obj.Value):
+        if attr_of(obj) != "tempoIndication" and not values_equal(new.Value, obj.Value):
             bad.append("Value")
         if kind == "meta" and (new.Measure != obj.Measure or new.TimeInBeats != obj.TimeInBeats):
             bad.append("Measure/TimeInBeats")
@@ -930,8 +932,26 @@ def eval_tov1(ev, d, obj, tpl, flds, modelled):
             ev.oracle.append("to_v1 reparse: %s %s: converted line %r raised %s: %s" % (kind, ver, line, type(e3).__name__, e3))
 
 
+def attr_of(obj):
+    return getattr(obj, "Attribute", None)
+
+
 def frac_value(fr):
     return Fraction(int(fr.numerator), int(fr.denominator) * (int(fr.tuple_div) if fr.tuple_div is not None else 1))
+
+
+def fold_fits(comps):
+    """re-reading the components left to right (what from_string does) never exceeds the 1024 bound"""
+    from math import lcm
+    n, dd = 0, 1
+    for c in map(frac_tuple, comps):
+        dc = c[1] * (c[2] if c[2] is not None else 1)
+        L = lcm(dd, dc)
+        n = n * (L // dd) + c[0] * (L // dc)
+        dd = L
+        if n > 1024 or dd > 1024:
+            return False
+    return True
 
 
 def eval_frac(d):
@@ -952,8 +972,8 @@ def eval_frac(d):
         else:
             if str(y) != s:
                 ev.oracle.append("frac string: %r re-formats to %r" % (s, str(y)))
-            if canon(y) != canon(x):
-                ev.oracle.append("frac string: %s -> %r -> %s" % (canon(x), s, canon(y)))
+            if frac_value(y) != frac_value(x):
+                ev.oracle.append("frac string: %s -> %r -> %s changes the value" % (canon(x), s, canon(y)))
     c, e = call(lambda: a + b)
     ok = model_ok_value(a) and model_ok_value(b)
     va, vb = frac_value(a), frac_value(b)
@@ -972,10 +992,10 @@ def eval_frac(d):
             ev.impl.append(canon(c))
         if fits and frac_value(c) != exact:
             ev.oracle.append("frac add: value(%s + %s) = %s, exact sum is %s" % (canon(a), canon(b), frac_value(c), exact))
-        if fits:
+        if fits and fold_fits(c.add_components or []):
             s = str(c)
             y, e2 = call(U.FractionalSymbolicDuration.from_string, s)
-            if e2 is not None or canon(y) != canon(c):
+            if e2 is not None or frac_value(y) != frac_value(c) or str(y) != s:
                 ev.oracle.append("frac add string: %s -> %r -> %s" % (canon(c), s, e2 or canon(y)))
     ev.key = "frac|%s|%s" % (canon(a), canon(b))
     return ev
@@ -1037,7 +1057,7 @@ def eval_file(d):
         if latin:
             ev.requests.append("dispatch %s %s" % (vs, W.s(line)))
             ev.impl.append("none")
-        ev.oracle.append("file: line %r of %s is not recognised" % (line, d["file"]))
+        # a line no parser accepts is not a line object: nothing to demand (the model must agree that it is rejected)
         return ev
     kind = kind_of(obj)
     modelled = latin and all(model_ok_value(v) for _, v in fields_of(obj))
